@@ -43,6 +43,7 @@ def total_harness(name, n, mode, steps, mult='2.5', short=False):
             ops.append(('feed', slot, tuple(tags)))
         else:
             v = b.anybar('b%d' % cnt[0]); b.emit('let _ = %s.next(&%s);' % (slot, v)); ops.append(('feed', slot, tuple('b%d.%s' % (cnt[0], f) for f in 'ohlcv')))
+        b.stub_draws(name)
     for k in range(3 if not short else 2):
         for _ in range(k): feed('a')
         b.emit('a.reset();'); ops.append(('reset', 'a'))
